@@ -12,6 +12,42 @@ CLAIMED = {
         design="5 / C13"),
 }
 
+PIPE_NOTE = ("Trusted: Coq kernel + vm_compute; harness/ser.py (prints the real resolved AST, values and Cache as Gallina); "
+             "Model/RefSem.v + Model/Ops.v are the specification of results (value domain of DESIGN.md section 4: cases outside are "
+             "discarded and counted); the backends' compilers are tied at L1 (results of generated pipelines on Polars and SQLite) and the "
+             "metadata / subquery catalogue at L2 (Model/Cache.v vs the real Cache on every case); generator preconditions keep the main "
+             "stream out of the regions of the listed known findings, which are re-demonstrated by dedicated probes.")
+
+
+def pipe(text, technique, design):
+    return dict(text=text, note=PIPE_NOTE, technique=technique, design=design)
+
+
+CLAIMED.update({
+    "C01": pipe("Theorems: a VOk verdict of the in-Coq comparison means equal names and equal rows (sequence when the pipeline fixes the order, multiset otherwise) w.r.t. ONE reference semantics evaluated on the real resolved AST of each backend; hence both backends agree. Tie: L1 on typed random pipelines over all verbs (joins, unions, windows, aggregates, all data shapes incl. tall tables with long null prefixes) on Polars and SQLite + L2 metadata traces. The compile-correctness invariant of DESIGN 5/C01 is only partly formalised (Cache model); the SQL/Polars compiler models are future work and stated as such in the evidence.",
+                "Rocq: reference semantics + comparison soundness theorems; differential correspondence of both backends against the reference evaluated by vm_compute", "5 / C01"),
+    "C02": pipe("Theorems (all tables, all expressions): select/drop only hide, rename only renames, mutate is simultaneous and keeps overwritten columns readable through their uid, filter keeps exactly the true rows in order, slice_head spec and the chain law, group_by/ungroup/alias change no data. Tie: L1 on row-verb pipelines on both backends.",
+                "Rocq: theorems on the reference semantics of the row verbs (induction over definitions, firstn/skipn algebra); differential correspondence", "5 / C02"),
+    "C04": pipe("Theorems: aggregates ignore nulls, give null on no non-null input, count / count(*) laws, filter= as masking, summarize yields one row when ungrouped, column order of summarize, a filter after summarize acts on groups. Tie: L1 on group/summarize-heavy pipelines incl. all-null groups, single-row groups, empty tables.",
+                "Rocq: aggregate laws on the reference semantics; differential correspondence", "5 / C04"),
+    "C05": pipe("Theorems: arrange is a permutation; the stable insertion sort is sorted, stable (ties keep the previous order) and commutes with filter, for any total transitive order; null placement is decided by the marker alone; descending reverses non-null order; window mutate keeps the rows. Tie: L1 on window/arrange-heavy pipelines with all marker combinations, partitions via partition_by and via group_by.",
+                "Rocq: stable-sort algebra and window reference semantics; differential correspondence", "5 / C05"),
+    "C06": pipe("Theorems: inner join = exactly the matching combinations (left-major), null never equals, cross join = full product, left join keeps every left row, padded columns read null, visible columns = left ++ right. Tie: L1 on join-heavy pipelines (equalities, conjunctions, inequalities, cross; duplicate/null keys; empty sides; suffix configurations observed through the real Rename node).",
+                "Rocq: join laws on the reference semantics; differential correspondence", "5 / C06"),
+    "C07": pipe("Theorems: union all keeps every row under the left header, rows are matched by column name, distinct leaves no duplicate visible row (nulls equal). Tie: L1 on union pipelines with permuted column orders, hidden columns, duplicates, empty sides, chained unions.",
+                "Rocq: union laws on the reference semantics; differential correspondence", "5 / C07"),
+    "C08": pipe("Theorems on the transcribed subquery catalogue (Model/Cache.requires_subquery): Polars never needs one; on the table re-rooted by alias()+marker NO verb needs one (alias unblocks); select/rename/slice_head/ungroup/alias never need one; filter/summarize/arrange/group_by/join/union after slice_head always do; element-wise mutate/filter, arrange, group_by and a first summarize never do while no limit and no window column are in scope. Tie: L2 — every recorded decision of the real Cache.requires_subquery (also for refused verbs) equals the model's; L1 — every accepted SQLite pipeline equals the reference; oracle — alias() before a refused verb makes it accepted. A broken L2 is turned into a failing input by probing every in-scope column after each prefix.",
+                "Rocq: theorems on the transcribed catalogue; L2 decision-by-decision correspondence + L1 differential", "5 / C08"),
+    "C09": pipe("Theorems: data read through a uid is unchanged by rename/select/drop, by overwriting mutate (old uid keeps old data), by filter/arrange/slice_head (rows are handed on intact), by join (left part of the joined row); the current name of a uid is its export name (cache = reference header). Tie: L1 on reference-heavy histories (swaps, renaming onto hidden names, overwrite and re-create, join suffixing, references from intermediate tables, hidden columns) + stale-reference stream (must raise ColumnNotFoundError / ValueError in a join condition). Resolution of t.x / C.x to uids is performed by the real front end and not modelled (partial).",
+                "Rocq: uid-denotation theorems on the reference semantics + cache/reference agreement; differential correspondence", "5 / C09"),
+    "C11": pipe("MAIN theorem: for every well-formed resolved AST and ALL data the names reported by the metadata model (transcription of Cache.update / from_ast) are, in names, order and count, the header of the reference result, and its grouping state is the reference's (induction over the AST). Tie: L2 — model cache = real incremental Cache field by field on every case; oracles — columns(), iteration, len, in, dir, Cache.from_ast all agree with the exported frame on both backends; L1 — frame = reference.",
+                "Rocq: induction over the AST relating the transcribed Cache to the reference semantics; L2 + L1 correspondence", "5 / C11"),
+    "C15": pipe("Theorems (all data): is_in = disjunction of equalities, slice chain = one slice, inner join = cross join + filter, drop = select of the complement, mutate split, union size. Tie: metamorphic oracle — each documented equivalence instantiated on generated prefixes, both sides exported on both backends and compared (and each side vs the reference).",
+                "Rocq: equivalence theorems on the reference semantics; metamorphic differential testing of both sides on both backends", "5 / C15"),
+    "C16": pipe("Theorems: alias(keep) / marker change nothing; plain alias keeps names, order, row count and the data under the renamed uids; metadata follows the alias map; the re-rooted table accepts every verb. Tie: L1 on alias-heavy pipelines + oracles (alias / alias(keep) / collect leave names, order and rows unchanged; self-join with alias() accepted with |t|^2 rows; origin references rejected after plain alias).",
+                "Rocq: renaming-invariance theorems; differential correspondence + re-rooting oracles", "5 / C16"),
+})
+
 REASON_TODO = "not yet built in this round (planned, DESIGN.md section 5); no check is registered rather than an empty one"
 
 def main():
